@@ -25,19 +25,21 @@ CLASSES = ["small-functions", "one-large-straddler", "large-functions", "mixed-a
 
 
 def gen(ctx, r, ci, pie, cls):
-    """cls: small-functions (<= 2 MiB per function, one alignment class: the shape wild's thunk design
-    targets), large-functions (5-15 MiB per function), mixed-alignment (functions of several alignment
+    """cls: small-functions (1-1.5 MiB per function, one alignment class: the shape wild's thunk design
+    targets), large-functions (2-13 MiB per function), mixed-alignment (functions of several alignment
     classes, each class holding > 128 MiB in total), one-large-straddler (1 MiB functions and a single
     3.25-3.75 MiB function with call sites at both of its ends, placed so that it straddles the point
     where the first thunk block stops being reachable)."""
     total_mib = r.choice([200, 220]) if ctx.quick else r.choice([136, 200, 300, 520])
     if cls == "small-functions":
-        per = r.choice([1, 2]) << 20
+        # strictly below the 2 MiB slack wild reserves per thunk block (thunks.rs
+        # MAXIMUM_THUNK_BYTES_PER_BLOCK); 2 MiB and more belongs to the large-functions class
+        per = r.choice([2, 3]) << 19
     elif cls == "one-large-straddler":
         per = 1 << 20
         total_mib = r.choice([290, 300])
     elif cls == "large-functions":
-        per = r.choice([5, 8, 13]) << 20
+        per = r.choice([2, 5, 8, 13]) << 20
     else:
         per = r.choice([1, 2]) << 20
         total_mib = max(total_mib, 280)
